@@ -154,6 +154,23 @@ def _make_toggleset(obs: list, state: dict) -> Any:
     return ObsToggleSet(any)
 
 
+def rebase_versions(cluster: fakeapi.Cluster, start: int | None) -> None:
+    """Renumber a freshly built cluster so that its next resourceVersion is `start + <objects so far> + 1`:
+    runs whose versions cross a power of ten ('9'→'10', '99'→'100', '999'→'1000') after a few events.
+    resourceVersions are opaque strings to a client: nothing may depend on their length or order as text."""
+    if start is None:
+        return
+    import copy
+    cluster.rv = int(start)
+    for key in list(cluster.log):
+        cluster.log[key] = []
+    for key, body in cluster.objects.items():
+        cluster.rv += 1
+        body["metadata"]["resourceVersion"] = str(cluster.rv)
+        cluster.log[key[0]].append((cluster.rv, "ADDED", copy.deepcopy(body)))
+        cluster.history[key] = [{"t": 0.0, "event": "ADDED", "body": copy.deepcopy(body)}]
+
+
 def _settings(sc: dict) -> Any:
     st = sc.get("settings", {})
     return runner.default_settings(**{
@@ -177,6 +194,7 @@ def run_stream(sc: dict, wall_limit: float = 60.0) -> dict:
         loop_errors: list[str] = []
         loop.set_exception_handler(lambda l, c: loop_errors.append(f"{c.get('message')}: {c.get('exception')!r}"[:200]))
         cluster = fakeapi.Cluster([fakeapi.NAMESPACES, fakeapi.CRDS, KEX])
+        rebase_versions(cluster, sc.get("rv0"))
         obs: list = [["init", cluster.rv]]
         state: dict = {"on": True, "res": KEX}
 
@@ -472,6 +490,7 @@ def run_operator(sc: dict, wall_limit: float = 60.0) -> dict:
         runner._patch_kopf()
         loop = asyncio.get_running_loop()
         cluster = fakeapi.Cluster([fakeapi.NAMESPACES, fakeapi.CRDS])
+        rebase_versions(cluster, sc.get("rv0"))
         for n in sc.get("initial_namespaces", []):
             if cluster.get(fakeapi.NAMESPACES, None, n) is None:
                 cluster.create_raw(fakeapi.NAMESPACES, None, n, {})
